@@ -5,7 +5,7 @@ State   = (canonical projection of the daemon's state dump, observer state, whic
           daemon* whenever the state is expanded (and the dump compared with the one recorded at discovery).
 Events  = the symbolic alphabet given by the caller, made concrete per state (routing tags).
 """
-import hashlib, json, multiprocessing as mp, os, pickle, sys, time, traceback
+import shutil, hashlib, json, multiprocessing as mp, os, pickle, sys, time, traceback
 from . import e1, proto, build as _build
 from .common import HarnessError
 
@@ -270,7 +270,7 @@ class State:
 class Search:
     def __init__(self, run, services, rules, timeout, ids, alphabet, flags=e1.F_DUMP | e1.F_STATS,
                  nworkers=16, maxdepth=None, maxstates=None, keep_refs=False, pbudget=3, label='', conf_extra='',
-                 record_delta=False, delta=None, delta_complete=None):
+                 record_delta=False, delta=None, delta_complete=None, reload_files=None):
         self.run = run
         self.b = _build.build()
         self.services, self.rules, self.timeout, self.ids = list(services), list(rules), timeout, list(ids)
@@ -282,6 +282,20 @@ class Search:
         self.conf = e1.conf_text(os.path.join(self.b, 'mods-wrapped'), services=self.services, timeout=timeout, rules=self.rules, extra=conf_extra)
         self.cfg = {'conf': self.conf, 'build': self.b, 'services': self.services, 'rules': self.rules, 'timeout': timeout,
                     'keep_refs': keep_refs, 'pbudget': pbudget, 'record_delta': record_delta, 'delta': delta, 'delta_complete': delta_complete}
+        # reload targets: written once into a directory every worker can read; alphabets name them ('RL', <name>)
+        self.reload_paths = {}
+        self.reload_texts = {}
+        self.reload_dir = None
+        if reload_files:
+            self.reload_dir = os.path.join(self.b, 'rl-%d-%d' % (os.getpid(), abs(hash(label)) % 100000000))
+            os.makedirs(self.reload_dir, exist_ok=True)
+            for name, fn in reload_files.items():
+                path = os.path.join(self.reload_dir, name)
+                text = fn(os.path.join(self.b, 'mods-wrapped')) if callable(fn) else fn
+                with open(path, 'w') as f:
+                    f.write(text)
+                self.reload_paths[name] = path
+                self.reload_texts[path] = text
         self.delta = {}
         self.states = []
         self.index = {}
@@ -369,6 +383,8 @@ class Search:
                 for sid in frontier:
                     st = self.states[sid]
                     evs = self.alphabet(st, self.world)
+                    if self.reload_paths:
+                        evs = [('RL', self.reload_paths[e[1]]) if e[0] == 'RL' and e[1] in self.reload_paths else e for e in evs]
                     tasks.append({'sid': sid, 'hist': self.history(sid), 'M': st.M, 'old': st.old, 'cur': st.cur, 'serial': st.serial,
                                   'dumph': st.dumph, 'events': evs, 'flags': self.flags})
                 nxt = []
@@ -438,6 +454,8 @@ class Search:
         finally:
             pool.terminate()
             pool.join()
+            if self.reload_dir:
+                shutil.rmtree(self.reload_dir, ignore_errors=True)
         return self
 
     # -- merge-soundness differential ---------------------------------------------------------------
@@ -465,7 +483,7 @@ class Search:
                 hist_a = self.history(tgt)
                 hist_b = self.history(frm) + [cev]
                 ser_a = self.states[tgt].serial
-                ser_b = self.states[frm].serial + (1 if ev[0] == 'C' else 0)
+                ser_b = self.states[frm].serial + (1 if ev[0] in ('C', 'C2') else 0)
                 for suf in self.merge_suffixes(i):
                     outs = []
                     for hist, ser in ((hist_a, ser_a), (hist_b, ser_b)):
@@ -493,6 +511,8 @@ class Search:
              'events': [list(map(_jsonable, c)) for c in self.history(sid)] + [list(map(_jsonable, cev))],
              'symbolic': [proto.ev_str(e) for e in self.sym_history(sid)] + [proto.ev_str(ev)],
              'symbolic_raw': [list(e) for e in self.sym_history(sid)] + [list(ev)]}
+        if self.reload_texts:
+            o['reload_files'] = dict(self.reload_texts)
         if extra:
             o.update(extra)
         return o
